@@ -68,9 +68,13 @@ func (l LabelSet) String() string {
 	return "{" + strings.Join(ss, ", ") + "}"
 }
 
+// world is one class of paths: the labels collected, the current symbolic
+// value of every tracked phi node, and facts (truth of conditions over values
+// that are computed at most once per invocation, so they cannot go stale).
 type world struct {
 	labels LabelSet
-	phis   map[*ssa.Phi]int
+	phis   map[*ssa.Phi]ssa.Value
+	facts  map[string]bool
 }
 
 func (w *world) key() string {
@@ -80,20 +84,28 @@ func (w *world) key() string {
 	}
 	sort.Strings(ss)
 	var ps []string
-	for p, i := range w.phis {
-		ps = append(ps, fmt.Sprintf("%s=%d", p.Name(), i))
+	for p, v := range w.phis {
+		ps = append(ps, fmt.Sprintf("%s=%s/%p", p.Name(), v.Name(), v))
 	}
 	sort.Strings(ps)
-	return strings.Join(ss, ",") + "|" + strings.Join(ps, ",")
+	var fs []string
+	for f, t := range w.facts {
+		fs = append(fs, fmt.Sprintf("%s:%v", f, t))
+	}
+	sort.Strings(fs)
+	return strings.Join(ss, ",") + "|" + strings.Join(ps, ",") + "|" + strings.Join(fs, ",")
 }
 
 func (w *world) clone() *world {
-	n := &world{labels: LabelSet{}, phis: map[*ssa.Phi]int{}}
+	n := &world{labels: LabelSet{}, phis: map[*ssa.Phi]ssa.Value{}, facts: map[string]bool{}}
 	for k := range w.labels {
 		n.labels[k] = true
 	}
 	for k, v := range w.phis {
 		n.phis[k] = v
+	}
+	for k, v := range w.facts {
+		n.facts[k] = v
 	}
 	return n
 }
@@ -116,11 +128,11 @@ type FlowResult struct {
 	Undecided bool // cap exceeded
 }
 
-const defaultMaxWorlds = 20000
+const defaultMaxWorlds = 40000
 
 // Flow runs the path-sensitive label analysis.  Every acyclic and cyclic path
-// is covered: worlds are merged when they carry the same labels and the same
-// choices for tracked phi nodes, and iteration continues to a fixed point.
+// is covered: worlds are merged when they carry the same labels, phi values and
+// facts, and iteration continues to a fixed point.
 func (e *Engine) Flow(fn *ssa.Function, o FlowOpts) *FlowResult {
 	genBlocks := map[string]map[int]bool{}
 	for iter := 0; iter < 20; iter++ {
@@ -132,47 +144,114 @@ func (e *Engine) Flow(fn *ssa.Function, o FlowOpts) *FlowResult {
 	return &FlowResult{At: map[ssa.Instruction][]LabelSet{}, Undecided: true}
 }
 
-func (e *Engine) trackedPhis(fn *ssa.Function) map[*ssa.Phi]bool {
-	tr := map[*ssa.Phi]bool{}
-	var visit func(v ssa.Value)
-	visit = func(v ssa.Value) {
-		switch x := v.(type) {
-		case *ssa.Phi:
-			if tr[x] {
-				return
+type fnInfo struct {
+	tracked   map[*ssa.Phi]bool
+	cyclic    map[*ssa.BasicBlock]bool
+	factRoots map[ssa.Value]bool
+}
+
+func (e *Engine) fnInfo(fn *ssa.Function) *fnInfo {
+	if fi, ok := e.fnInfos[fn]; ok {
+		return fi
+	}
+	fi := &fnInfo{tracked: map[*ssa.Phi]bool{}, cyclic: map[*ssa.BasicBlock]bool{}, factRoots: map[ssa.Value]bool{}}
+	// cyclic blocks: b reaches b
+	for _, b := range fn.Blocks {
+		seen := map[*ssa.BasicBlock]bool{}
+		var st []*ssa.BasicBlock
+		st = append(st, b.Succs...)
+		for len(st) > 0 {
+			x := st[len(st)-1]
+			st = st[:len(st)-1]
+			if x == b {
+				fi.cyclic[b] = true
+				break
 			}
-			tr[x] = true
-			for _, ed := range x.Edges {
-				visit(ed)
+			if seen[x] {
+				continue
 			}
-		case *ssa.UnOp:
-			if x.Op == token.NOT {
-				visit(x.X)
-			}
-		case *ssa.BinOp:
-			if x.Op == token.EQL || x.Op == token.NEQ {
-				if _, ok := x.Y.(*ssa.Const); ok {
-					if isBool(x.X.Type()) {
-						visit(x.X)
-					}
-				}
-			}
+			seen[x] = true
+			st = append(st, x.Succs...)
 		}
 	}
+	// tracked phis and roots of conditions
+	rootCount := map[ssa.Value]int{}
+	rootCyclic := map[ssa.Value]bool{}
 	for _, b := range fn.Blocks {
 		if len(b.Instrs) == 0 {
 			continue
 		}
+		var conds []ssa.Value
 		switch t := b.Instrs[len(b.Instrs)-1].(type) {
 		case *ssa.If:
-			visit(t.Cond)
+			conds = append(conds, t.Cond)
 		case *ssa.Return:
-			for _, r := range t.Results {
-				visit(r)
+			conds = append(conds, t.Results...)
+		}
+		for _, c := range conds {
+			roots := map[ssa.Value]bool{}
+			e.condRoots(c, fi.tracked, roots, map[ssa.Value]bool{}, 0)
+			for r := range roots {
+				rootCount[r]++
+				if fi.cyclic[b] {
+					rootCyclic[r] = true
+				}
 			}
 		}
 	}
-	return tr
+	for r, n := range rootCount {
+		if n >= 2 || rootCyclic[r] {
+			fi.factRoots[r] = true
+		}
+	}
+	e.fnInfos[fn] = fi
+	return fi
+}
+
+// condRoots walks a condition through negations, comparisons, phis and
+// spilled locals; marks phis as tracked and collects the leaf values.
+func (e *Engine) condRoots(v ssa.Value, tracked map[*ssa.Phi]bool, roots map[ssa.Value]bool, seen map[ssa.Value]bool, depth int) {
+	if seen[v] || depth > 30 {
+		return
+	}
+	seen[v] = true
+	switch x := v.(type) {
+	case *ssa.Const:
+		return
+	case *ssa.Phi:
+		tracked[x] = true
+		for _, ed := range x.Edges {
+			e.condRoots(ed, tracked, roots, seen, depth+1)
+		}
+		return
+	case *ssa.UnOp:
+		if x.Op == token.NOT {
+			e.condRoots(x.X, tracked, roots, seen, depth+1)
+			return
+		}
+		if x.Op == token.MUL {
+			if a, ok := x.X.(*ssa.Alloc); ok {
+				vals, exact := e.ReachingStores(a, x)
+				if exact && len(vals) == 1 && vals[0] != nil {
+					e.condRoots(vals[0], tracked, roots, seen, depth+1)
+					return
+				}
+			}
+		}
+	case *ssa.BinOp:
+		if _, cmp := negOp[x.Op]; cmp {
+			e.condRoots(x.X, tracked, roots, seen, depth+1)
+			e.condRoots(x.Y, tracked, roots, seen, depth+1)
+			return
+		}
+	case *ssa.ChangeType:
+		e.condRoots(x.X, tracked, roots, seen, depth+1)
+		return
+	case *ssa.MakeInterface:
+		e.condRoots(x.X, tracked, roots, seen, depth+1)
+		return
+	}
+	roots[v] = true
 }
 
 func isBool(t types.Type) bool {
@@ -198,7 +277,7 @@ func (e *Engine) flowOnce(fn *ssa.Function, o FlowOpts, genBlocks map[string]map
 			grew = true
 		}
 	}
-	tracked := e.trackedPhis(fn)
+	fi := e.fnInfo(fn)
 	type item struct {
 		b     *ssa.BasicBlock
 		start int
@@ -238,20 +317,28 @@ func (e *Engine) flowOnce(fn *ssa.Function, o FlowOpts, genBlocks map[string]map
 		}
 	}
 	enter := func(from, to *ssa.BasicBlock, w *world) {
-		// phi choices
+		// parallel evaluation of the tracked phis of `to`
+		type upd struct {
+			p *ssa.Phi
+			v ssa.Value
+		}
+		var ups []upd
 		for _, in := range to.Instrs {
 			p, ok := in.(*ssa.Phi)
 			if !ok {
 				break
 			}
-			if tracked[p] {
+			if fi.tracked[p] {
 				for i, pr := range to.Preds {
-					if pr == from {
-						w.phis[p] = i
+					if pr == from && i < len(p.Edges) {
+						ups = append(ups, upd{p, e.resolveVal(p.Edges[i], w)})
 						break
 					}
 				}
 			}
+		}
+		for _, u := range ups {
+			w.phis[u.p] = u.v
 		}
 		// back edge: drop labels generated inside the loop headed by `to`
 		if from != nil && to.Dominates(from) {
@@ -263,16 +350,11 @@ func (e *Engine) flowOnce(fn *ssa.Function, o FlowOpts, genBlocks map[string]map
 					}
 				}
 			}
-			for p := range w.phis {
-				if p.Block() != to && to.Dominates(p.Block()) {
-					delete(w.phis, p)
-				}
-			}
 		}
 		push(to, 0, w)
 	}
 
-	init := &world{labels: LabelSet{}, phis: map[*ssa.Phi]int{}}
+	init := &world{labels: LabelSet{}, phis: map[*ssa.Phi]ssa.Value{}, facts: map[string]bool{}}
 	for _, l := range o.Init {
 		init.labels[l] = true
 	}
@@ -305,13 +387,12 @@ func (e *Engine) flowOnce(fn *ssa.Function, o FlowOpts, genBlocks map[string]map
 			if ret, ok := in.(*ssa.Return); ok {
 				var nws []*world
 				for _, w := range ws {
-					nws = append(nws, e.splitReturn(fn, ret, w, apply, b)...)
+					nws = append(nws, e.splitReturn(fn, fi, ret, w, apply, b)...)
 				}
 				ws = nws
 			}
 			if o.Target != nil && o.Target(in) {
 				for _, w := range ws {
-					k := w.key()
 					if recorded[in] == nil {
 						recorded[in] = map[string]bool{}
 					}
@@ -320,7 +401,6 @@ func (e *Engine) flowOnce(fn *ssa.Function, o FlowOpts, genBlocks map[string]map
 						ls[l] = true
 					}
 					lk := ls.String()
-					_ = k
 					if !recorded[in][lk] {
 						recorded[in][lk] = true
 						res.At[in] = append(res.At[in], ls)
@@ -332,7 +412,7 @@ func (e *Engine) flowOnce(fn *ssa.Function, o FlowOpts, genBlocks map[string]map
 				for _, w := range ws {
 					for si, pol := range []bool{true, false} {
 						nw := w.clone()
-						if e.applyCond(fn, t, t.Cond, pol, nw, apply, b) {
+						if e.applyCond(fn, fi, t, t.Cond, pol, nw, apply, b) {
 							enter(b, b.Succs[si], nw)
 						}
 					}
@@ -368,62 +448,166 @@ func hasEffect(in ssa.Instruction) bool {
 	return false
 }
 
+// resolveVal follows tracked phis (current symbolic value in this world),
+// spilled locals with a unique reaching store, and type-only conversions.
+func (e *Engine) resolveVal(v ssa.Value, w *world) ssa.Value {
+	for d := 0; d < 12; d++ {
+		switch x := v.(type) {
+		case *ssa.Phi:
+			if w != nil {
+				if nv, ok := w.phis[x]; ok && nv != v {
+					return nv // stored values are already resolved
+				}
+			}
+			return v
+		case *ssa.UnOp:
+			if x.Op == token.MUL {
+				if a, ok := x.X.(*ssa.Alloc); ok {
+					vals, exact := e.ReachingStores(a, x)
+					if exact && len(vals) == 1 && vals[0] != nil {
+						v = vals[0]
+						continue
+					}
+				}
+			}
+			return v
+		case *ssa.ChangeType:
+			v = x.X
+			continue
+		}
+		return v
+	}
+	return v
+}
+
+// once reports whether v is computed at most once per invocation of fn
+// (constants, parameters, captured variables, instructions outside cycles).
+func (fi *fnInfo) once(v ssa.Value) bool {
+	switch x := v.(type) {
+	case *ssa.Const, *ssa.Parameter, *ssa.FreeVar, *ssa.Global, *ssa.Function:
+		return true
+	case ssa.Instruction:
+		if x.Block() == nil {
+			return true
+		}
+		return !fi.cyclic[x.Block()]
+	}
+	return false
+}
+
 // applyCond adds the labels implied by cond having truth value pol; returns
 // false when the edge is infeasible in this world.
-func (e *Engine) applyCond(fn *ssa.Function, at ssa.Instruction, v ssa.Value, pol bool, w *world,
+func (e *Engine) applyCond(fn *ssa.Function, fi *fnInfo, at ssa.Instruction, v ssa.Value, pol bool, w *world,
 	apply func(*world, *Event, *ssa.BasicBlock), b *ssa.BasicBlock) bool {
-	v, pol, feasible, known := e.resolveCond(v, pol, w, 0)
+	str, rv, rpol, feasible, known, stable, rooted := e.evalCond(fi, v, pol, w, 0)
 	if known {
 		return feasible
 	}
-	ev := &Event{Kind: EvCond, Instr: at, Val: v, Pol: pol, Fn: fn}
-	ev.Str = e.CondStr(v, pol)
+	// facts: a condition over once-values that was decided earlier on this path
+	key, kpol := str, true
+	if strings.HasPrefix(str, "!") {
+		key, kpol = str[1:], false
+	}
+	if stable {
+		// normalise comparisons to their positive operator for the key
+		if t, ok := w.facts[key]; ok {
+			if t != kpol {
+				return false
+			}
+		} else if neg, ok2 := negateCmpStr(key); ok2 {
+			if t, ok := w.facts[neg]; ok && t == kpol {
+				return false
+			}
+		}
+		if rooted {
+			w.facts[key] = kpol
+		}
+	}
+	ev := &Event{Kind: EvCond, Instr: at, Val: rv, Pol: rpol, Fn: fn, Str: str}
 	apply(w, ev, b)
 	return true
 }
 
-// resolveCond strips negations / bool-const comparisons / tracked phis / spilled
-// locals.  known==true means the truth value is a constant in this world.
-func (e *Engine) resolveCond(v ssa.Value, pol bool, w *world, depth int) (ssa.Value, bool, bool, bool) {
+// negateCmpStr turns "(a == b)" into "(a != b)" etc. (top-level operator only
+// when unambiguous); used to relate facts recorded under either polarity.
+func negateCmpStr(s string) (string, bool) {
+	for _, p := range [][2]string{{" == ", " != "}, {" != ", " == "}} {
+		if strings.Count(s, p[0]) == 1 && !strings.Contains(s, p[1]) {
+			return strings.Replace(s, p[0], p[1], 1), true
+		}
+	}
+	return "", false
+}
+
+// evalCond resolves a condition in a world.  It returns the canonical string
+// (polarity applied), the resolved value and polarity, and whether the truth
+// value is already known (constant) in this world.
+func (e *Engine) evalCond(fi *fnInfo, v ssa.Value, pol bool, w *world, depth int) (str string, rv ssa.Value, rpol bool, feasible, known, stable, rooted bool) {
+	v = e.resolveVal(v, w)
 	if depth > 12 {
-		return v, pol, true, false
+		return e.CondStr(v, pol), v, pol, true, false, false, false
 	}
 	switch x := v.(type) {
 	case *ssa.Const:
 		if x.Value != nil && x.Value.Kind() == constant.Bool {
-			return v, pol, constant.BoolVal(x.Value) == pol, true
+			return "", v, pol, constant.BoolVal(x.Value) == pol, true, true, false
 		}
 	case *ssa.UnOp:
 		if x.Op == token.NOT {
-			return e.resolveCond(x.X, !pol, w, depth+1)
-		}
-		if x.Op == token.MUL {
-			if a, ok := x.X.(*ssa.Alloc); ok {
-				vals, exact := e.ReachingStores(a, x)
-				if exact && len(vals) == 1 && vals[0] != nil {
-					return e.resolveCond(vals[0], pol, w, depth+1)
-				}
-			}
+			return e.evalCond(fi, x.X, !pol, w, depth+1)
 		}
 	case *ssa.BinOp:
-		if (x.Op == token.EQL || x.Op == token.NEQ) && isBool(x.X.Type()) {
-			if k, ok := x.Y.(*ssa.Const); ok && k.Value != nil && k.Value.Kind() == constant.Bool {
-				p := pol
-				if constant.BoolVal(k.Value) != (x.Op == token.EQL) {
-					p = !p
+		if _, cmp := negOp[x.Op]; cmp {
+			lx, ly := e.resolveVal(x.X, w), e.resolveVal(x.Y, w)
+			// bool compared with a bool constant
+			if (x.Op == token.EQL || x.Op == token.NEQ) && isBool(lx.Type()) {
+				if k, ok := ly.(*ssa.Const); ok && k.Value != nil && k.Value.Kind() == constant.Bool {
+					p := pol
+					if constant.BoolVal(k.Value) != (x.Op == token.EQL) {
+						p = !p
+					}
+					return e.evalCond(fi, lx, p, w, depth+1)
 				}
-				return e.resolveCond(x.X, p, w, depth+1)
 			}
-		}
-	case *ssa.Phi:
-		if w != nil {
-			if i, ok := w.phis[x]; ok && i < len(x.Edges) {
-				return e.resolveCond(x.Edges[i], pol, w, depth+1)
+			kx, okx := lx.(*ssa.Const)
+			ky, oky := ly.(*ssa.Const)
+			if okx && oky {
+				if t, ok := compareConsts(kx, ky, x.Op); ok {
+					return "", v, pol, t == pol, true, true, false
+				}
 			}
+			s := e.cmpStr(x.Op, lx, ly, pol)
+			return s, v, pol, true, false, fi.once(lx) && fi.once(ly), fi.factRoots[lx] || fi.factRoots[ly] || fi.factRoots[x.X] || fi.factRoots[x.Y]
 		}
 	}
-	return v, pol, true, false
+	s := e.Canon(v)
+	if !pol {
+		s = "!" + s
+	}
+	return s, v, pol, true, false, fi.once(v), fi.factRoots[v]
 }
+
+func compareConsts(a, b *ssa.Const, op token.Token) (bool, bool) {
+	if a.Value == nil || b.Value == nil {
+		// nil / zero constants
+		if a.Value == nil && b.Value == nil {
+			an, bn := constStr(a), constStr(b)
+			switch op {
+			case token.EQL:
+				return an == bn, true
+			case token.NEQ:
+				return an != bn, true
+			}
+		}
+		return false, false
+	}
+	if a.Value.Kind() != b.Value.Kind() && !(isNumKind(a.Value.Kind()) && isNumKind(b.Value.Kind())) {
+		return false, false
+	}
+	return constant.Compare(a.Value, op, b.Value), true
+}
+
+func isNumKind(k constant.Kind) bool { return k == constant.Int || k == constant.Float }
 
 var negOp = map[token.Token]token.Token{
 	token.EQL: token.NEQ, token.NEQ: token.EQL,
@@ -437,27 +621,11 @@ var negOp = map[token.Token]token.Token{
 func (e *Engine) CondStr(v ssa.Value, pol bool) string {
 	if bo, ok := v.(*ssa.BinOp); ok {
 		if _, cmp := negOp[bo.Op]; cmp {
-			op := bo.Op
-			if !pol {
-				op = negOp[op]
-			}
-			x, y := e.Canon(bo.X), e.Canon(bo.Y)
-			switch op {
-			case token.GTR:
-				x, y, op = y, x, token.LSS
-			case token.GEQ:
-				x, y, op = y, x, token.LEQ
-			case token.EQL, token.NEQ:
-				_, xc := bo.X.(*ssa.Const)
-				_, yc := bo.Y.(*ssa.Const)
-				if xc && !yc {
-					x, y = y, x
-				} else if !xc && !yc && y < x {
-					x, y = y, x
-				}
-			}
-			return "(" + x + " " + op.String() + " " + y + ")"
+			return e.cmpStr(bo.Op, bo.X, bo.Y, pol)
 		}
+	}
+	if u, ok := v.(*ssa.UnOp); ok && u.Op == token.NOT {
+		return e.CondStr(u.X, !pol)
 	}
 	s := e.Canon(v)
 	if !pol {
@@ -466,47 +634,48 @@ func (e *Engine) CondStr(v ssa.Value, pol bool) string {
 	return s
 }
 
+func (e *Engine) cmpStr(op token.Token, X, Y ssa.Value, pol bool) string {
+	if !pol {
+		op = negOp[op]
+	}
+	x, y := e.Canon(X), e.Canon(Y)
+	switch op {
+	case token.GTR:
+		x, y, op = y, x, token.LSS
+	case token.GEQ:
+		x, y, op = y, x, token.LEQ
+	case token.EQL, token.NEQ:
+		_, xc := X.(*ssa.Const)
+		_, yc := Y.(*ssa.Const)
+		if xc && !yc {
+			x, y = y, x
+		} else if !xc && !yc && y < x {
+			x, y = y, x
+		}
+	}
+	return "(" + x + " " + op.String() + " " + y + ")"
+}
+
 // splitReturn turns result values into labels ret<i>=<value>.  Boolean results
 // that are not constant in this world are treated as conditions: the world is
 // split into a ret=true world (with the condition's labels) and a ret=false one.
-func (e *Engine) splitReturn(fn *ssa.Function, ret *ssa.Return, w *world,
+func (e *Engine) splitReturn(fn *ssa.Function, fi *fnInfo, ret *ssa.Return, w *world,
 	apply func(*world, *Event, *ssa.BasicBlock), b *ssa.BasicBlock) []*world {
 	ws := []*world{w}
 	for i, r := range ret.Results {
 		var next []*world
 		for _, cw := range ws {
 			if isBool(r.Type()) {
-				v, pol, feasible, known := e.resolveCond(r, true, cw, 0)
-				if known {
-					val := feasible // cond==true feasible => value true
-					cw.labels[fmt.Sprintf("ret%d=%v", i, val)] = true
-					next = append(next, cw)
-					continue
-				}
 				for _, want := range []bool{true, false} {
 					nw := cw.clone()
-					p := pol
-					if !want {
-						p = !p
+					if e.applyCond(fn, fi, ret, r, want, nw, apply, b) {
+						nw.labels[fmt.Sprintf("ret%d=%v", i, want)] = true
+						next = append(next, nw)
 					}
-					ev := &Event{Kind: EvCond, Instr: ret, Val: v, Pol: p, Fn: fn}
-					ev.Str = e.CondStr(v, p)
-					apply(nw, ev, b)
-					nw.labels[fmt.Sprintf("ret%d=%v", i, want)] = true
-					next = append(next, nw)
 				}
 				continue
 			}
-			rv := r
-			for d := 0; d < 8; d++ {
-				if p, ok := rv.(*ssa.Phi); ok {
-					if j, ok := cw.phis[p]; ok && j < len(p.Edges) {
-						rv = p.Edges[j]
-						continue
-					}
-				}
-				break
-			}
+			rv := e.resolveVal(r, cw)
 			if k, ok := rv.(*ssa.Const); ok {
 				cw.labels[fmt.Sprintf("ret%d=%s", i, constStr(k))] = true
 			}
